@@ -22,7 +22,7 @@ use liwe::model::config::{Configuration, MarkdownOptions};
 use liwe::model::Key;
 use lsp_types::*;
 use serde_json::{json, Value};
-use std::collections::{BTreeMap, HashSet};
+use std::collections::HashSet;
 use std::panic::{catch_unwind, AssertUnwindSafe};
 
 pub const KINDS: [&str; 7] = [
@@ -339,12 +339,13 @@ fn inl(rng: &mut Rng, ctx: &Ctx) -> Vec<GI> {
 
 fn list_item(rng: &mut Rng, ctx: &Ctx, depth: usize) -> Vec<GB> {
     let mut it = vec![GB::Para(inl(rng, ctx))];
-    match rng.below(10) {
+    match rng.below(16) {
         0 | 1 if depth < 2 => it.push(list(rng, ctx, depth + 1)),
         2 => it.push(GB::Para(inl(rng, ctx))),
         3 => it.push(ref_para(rng, ctx)),
         4 => { it.push(GB::Para(inl(rng, ctx))); it.push(GB::Code(None, "code\n".into())); }
         5 if depth < 2 => { it.push(GB::Heading(rng.range(1, 2) as u8, ws(rng, 1, 2))); it.push(GB::Para(inl(rng, ctx))); }
+        6 if depth < 2 => { it.push(GB::Para(inl(rng, ctx))); it.push(list(rng, ctx, depth + 1)); it.push(GB::Para(inl(rng, ctx))); if rng.chance(1, 2) { it.push(list(rng, ctx, depth + 1)); } }
         _ => {}
     }
     it
@@ -461,6 +462,3 @@ pub fn label(v: &Value) -> String {
     let n = v["notes"].as_array().map(|a| a.len()).unwrap_or(0);
     format!("{}:seq={}:ext={}:notes={}", v["kind"].as_str().unwrap_or("?"), v["seq"].as_bool().unwrap_or(true), v["ext"].as_str().unwrap_or(""), n)
 }
-
-#[allow(dead_code)]
-pub fn unused(_: BTreeMap<String, String>) {}
